@@ -33,6 +33,7 @@ CONSTANTS
   LockOf <- %(lockof)s
   MaxCmds = %(maxcmds)d
   FaultBudget = %(faults)d
+  DisjointKeys = %(disjoint)s
 INVARIANTS %(invs)s
 CHECK_DEADLOCK %(deadlock)s
 """
@@ -185,11 +186,11 @@ def explore(run, progs, mode, log2stripes, maxsched, label):
 
 
 def conc_cfg(keys=1, clients=2, portof="PortMainBatch", locked=True, multi=True, lockof="LockOne", maxcmds=2, faults=0,
-             invs="ReplyOK Subset RefEq OneLock LockFree OnlyHolderRuns", deadlock=True):
+             invs="ReplyOK Subset RefEq OneLock LockFree OnlyHolderRuns", deadlock=True, disjoint=False):
     return CONC_CFG % dict(keys=", ".join('"k%d"' % i for i in range(1, keys + 1)),
                            clients=", ".join('"c%d"' % i for i in range(1, clients + 1)), portof=portof,
                            locked="TRUE" if locked else "FALSE", multi="TRUE" if multi else "FALSE", lockof=lockof,
-                           maxcmds=maxcmds, faults=faults, invs=invs, deadlock="TRUE" if deadlock else "FALSE")
+                           maxcmds=maxcmds, faults=faults, invs=invs, deadlock="TRUE" if deadlock else "FALSE", disjoint="TRUE" if disjoint else "FALSE")
 
 
 def design(run, tier, faults):
